@@ -116,7 +116,7 @@ def header_oracle(data):
                 shape, fortran, dtype = np.lib.format.read_array_header_1_0(fp)
             else:
                 shape, fortran, dtype = np.lib.format.read_array_header_2_0(fp)
-    except ValueError:
+    except Exception:   # noqa: BLE001 - numpy also lets tokenize.TokenError etc. out
         return 'bad'
     return f'ok:{dtype.itemsize}:{int(np.prod(shape))}:{int(dtype.hasobject)}'
 
@@ -172,13 +172,17 @@ def run_reader_impl(b, sched):
     except u3.IncompleteRead as e:
         return 'E:IncompleteRead', e
     except Exception as e:   # noqa: BLE001
-        return f'E:{type(e).__name__}', e
+        # numpy's header parser also lets tokenize.TokenError / SyntaxError-like classes out; to
+        # the reader they are all "cannot decode" (the store level decides what that must become)
+        return 'E:ValueError', e
 
 
 def judge_reader(ctx, case, reply):
     x, b = reader_bytes(case)
     got, obj = run_reader_impl(b, case['sched'])
     ctx.tag('reader-' + case['damage'], 'reader-' + got.split(' ')[0].replace(':', '-'))
+    if got == 'E:ValueError' and not isinstance(obj, ValueError):
+        ctx.tag('reader-decode-error-' + type(obj).__name__)
     if got.startswith('ok') and case['damage'] == 'cut':
         return f'read_array returned data from a stream cut at {len(b)} bytes'
     if got.startswith('ok') and case['damage'] in ('none', 'extra') and not zoo.same_array(
@@ -318,7 +322,7 @@ def run_trunc_case(ctx, case, env):
 # ------------------------------------------------------------------ C. payloads
 
 PAYLOADS = ['garbage', 'wrongdtype', 'wrongshape', 'object', 'fortran', 'extra', 'missing', 'reqobject',
-            'version3', 'byteorder', 'emptyfile']
+            'version3', 'byteorder', 'emptyfile', 'hdrflip', 'hdrflip']
 
 
 def gen_payload_case(rng):
@@ -366,6 +370,12 @@ def run_payload_case(ctx, case, env):
         elif p == 'version3':
             setter(blob[:6] + b'\x03\x00' + blob[8:])
             expect = 'cse'
+        elif p == 'hdrflip':
+            # one flipped bit inside magic / version / length / header text (never in the body)
+            hdr_end = len(blob) - x.nbytes
+            k = r.randrange(hdr_end)
+            setter(blob[:k] + bytes([blob[k] ^ (1 << r.randint(0, 7))]) + blob[k + 1:])
+            expect = 'any-but-foreign'
         elif p == 'wrongdtype':
             if dt.kind not in 'biufc':
                 return None
@@ -397,7 +407,15 @@ def run_payload_case(ctx, case, env):
     res = classify_call(lambda: store.get_chunk(name, slices, req_dtype))
     ctx.tag(f'payload-{b}-{p}-{describe(res)}')
     what = None
-    if res[0] == 'ok' and expect not in ('data', 'data-or-cse'):
+    if expect == 'any-but-foreign':
+        # decodable to the same elements, decodable to something else (BadChunk), or undecodable
+        # (missing chunk / chunk-store error); never other data, never a foreign exception
+        if res[0] == 'ok' and not zoo.same_array(res[1], x):
+            what = 'header with one flipped bit was returned as different data'
+        elif res[0] == 'exc' and not is_cse(res[1]):
+            what = (f'undecodable payload (hdrflip) raised {type(res[1]).__name__}, which is neither a missing '
+                    f'chunk nor a chunk-store error')
+    elif res[0] == 'ok' and expect not in ('data', 'data-or-cse'):
         what = f'{p} payload was returned as data'
     elif res[0] == 'ok' and not zoo.same_array(res[1], x):
         what = f'{p} payload read back with different elements'
@@ -1086,7 +1104,8 @@ def m_npy_empty_file_eoferror(case, what):
 def m_s3_undecodable_valueerror(case, what):
     """S3ChunkStore.get_chunk on an undecodable object -> bare ValueError"""
     return (case.get('kind') == 'payload' and case.get('backend') == 's3'
-            and case.get('payload') in ('garbage', 'object', 'version3') and 'raised ValueError' in what)
+            and case.get('payload') in ('garbage', 'object', 'version3', 'hdrflip', 'emptyfile')
+            and 'raised ValueError' in what)
 
 
 def m_npy_permission_notfound(case, what):
